@@ -31,8 +31,8 @@ def run(tier: str) -> int:
         if quick:   # every prefix length for one history per class, a sample for the others
             for k, j in enumerate(jobs):
                 j["all_prefixes"] = (k % 2 == 0)
-                j["rounds"] = 2 if k % 2 == 0 else 1
-        jobs += PC.probe_jobs("kill", 1 if quick else 4, seed + 1, start=5000, kills=10 if quick else 75, max_delay=0.3)
+                j["rounds"] = 1 if k % 2 == 0 else 2
+        jobs += PC.probe_jobs("kill", 1 if quick else 4, seed + 1, start=5000, kills=6 if quick else 75, max_delay=0.3)
         good, verd = PC.run_validate(rep, wd, jobs, "crash_probes", "harness.probeworker", only=CLAUSES, stall=120,
                                      describe=lambda e: f"{e.get('what','')}: sub_ok={e.get('sub_ok')} full_ok={e.get('full_ok')} "
                                                         f"full_committed={e.get('full_committed')} changed={e.get('changed')}")
